@@ -33,6 +33,11 @@ ASSUMPTIONS = [
 
 
 MUTANTS = [
+    ("background subtracted only when it has positive pixels",
+     "AegeanTools/source_finder.py",
+     "        img -= self.global_data.bkgimg\n",
+     "        if np.any(self.global_data.bkgimg > 0):\n"
+     "            img -= self.global_data.bkgimg\n", "C02-R9"),
     ("default 4-connectivity", "AegeanTools/source_finder.py",
      "l, n = label(a, structure=np.ones((3, 3)))", "l, n = label(a)",
      "C02-R1"),
@@ -95,6 +100,11 @@ MUTANTS = [
      "            bkg=np.zeros_like(data),", "            bkg=global_data.bkgimg,", "C02-R9"),
 ]
 TWINS = [
+    ("identically zero background not subtracted",
+     "AegeanTools/source_finder.py",
+     "        img -= self.global_data.bkgimg\n",
+     "        if np.any(self.global_data.bkgimg != 0):\n"
+     "            img -= self.global_data.bkgimg\n"),
     ("structure literal", "AegeanTools/source_finder.py",
      "l, n = label(a, structure=np.ones((3, 3)))",
      "l, n = label(a, structure=[[1, 1, 1], [1, 1, 1], [1, 1, 1]])"),
@@ -616,6 +626,98 @@ def r8_loop(ctx, prog, m):
               node=st[0] if st else sm.node)
 
 
+BKG_SAMPLES = {"all zero": [0.0, 0.0, 0.0], "positive": [1.0, 2.0, 3.0],
+               "negative": [-1.0, -2.0, -3.0], "mixed": [-1.0, 0.0, 2.0]}
+
+
+def bkg_guards(ctx, rule, lg, subs, stores, symmetric=False):
+    """Paths of load_globals that reach the store of the image without the
+    background subtraction: allowed only behind a guard that holds exactly
+    when the background is identically zero (subtracting it is the
+    identity).  The guard is interpreted over sample backgrounds.  With
+    symmetric=True the question is instead whether each guard takes the same
+    value for a background and its negation."""
+    from ..cfg import CFG, ENTRY, EXIT
+    from ..concrete import Unknown, ev
+    g = CFG(lg.node)
+    sub_nodes = {n for st in subs for n in g.nodes_for_stmt(st)}
+    first = min(st.lineno for st in subs)
+    dst = [n for st in stores if st.lineno > first
+           for n in g.nodes_for_stmt(st)] or [EXIT]
+    if not sub_nodes or not dst:
+        raise AnalysisError("%s: subtraction / store of the image not in "
+                            "the flow graph of load_globals" % rule)
+    bmap = [norm(x) for x in ast.walk(lg.node)
+            if isinstance(x, ast.Attribute) and x.attr == "bkgimg"]
+    imap = [norm(x) for x in ast.walk(lg.node)
+            if isinstance(x, ast.Attribute) and x.attr == "img"] + ["img"]
+
+    def value(test, sample, sign=1):
+        env = {k: [sign * v for v in sample] for k in set(bmap)}
+        env.update({k: [sign * (v + 5.0) for v in sample] for k in set(imap)})
+        return ev(test, env)
+    if symmetric:
+        n = 0
+        for nd in g.g:
+            if g.kind.get(nd) != "if":
+                continue
+            t_ = g.stmt[nd].test
+            if not (set(bmap) | set(imap)) & {norm(x) for x in ast.walk(t_)}:
+                continue
+            try:
+                diff = [k for k, smp in BKG_SAMPLES.items()
+                        if value(t_, smp) != value(t_, smp, -1)]
+            except Unknown as u:
+                ctx.unknown_site(rule, lg, "guard %s on pixel data not "
+                                 "interpreted (%s)" % (norm(t_, 50), u),
+                                 node=g.stmt[nd])
+                continue
+            n += 1
+            ctx.check(rule, lg, "guard on pixel data " + norm(t_, 60),
+                      not diff, "the guard takes a different value for a %s "
+                      "background and for its negation: the negated image "
+                      "(with negated background) is prepared differently, so "
+                      "fluxes are not simply negated" % "/".join(diff),
+                      node=g.stmt[nd])
+        return n
+    for d in dst:
+        bypass = g.path_avoiding(ENTRY, d, sub_nodes)
+        if not bypass:
+            ctx.ob(rule, lg, "every path to the image store subtracts the "
+                   "background", True, {}, g.stmt[d])
+            continue
+        decided = False
+        for k_, nd in enumerate(bypass[:-1]):
+            if g.kind.get(nd) != "if":
+                continue
+            t_ = g.stmt[nd].test
+            if not set(bmap) & {norm(x) for x in ast.walk(t_)}:
+                continue
+            lab = g.g[nd][bypass[k_ + 1]].get("label")
+            try:
+                taken = [k for k, smp in BKG_SAMPLES.items()
+                         if bool(value(t_, smp)) == (lab == "T")]
+            except Unknown as u:
+                raise AnalysisError("%s: guard %s of the background "
+                                    "subtraction not interpreted (%s)" %
+                                    (rule, norm(t_, 60), u))
+            decided = True
+            ctx.check(rule, lg, "background subtraction skipped when " +
+                      ("" if lab == "T" else "not ") + norm(t_, 60),
+                      taken == ["all zero"],
+                      "the subtraction is skipped for a background that is "
+                      "%s; only an identically zero background may be "
+                      "skipped -- otherwise the image keeps its background "
+                      "and islands are segmented on |image + bkg| / rms" %
+                      " / ".join(x for x in taken if x != "all zero"),
+                      node=g.stmt[nd])
+        if not decided:
+            raise AnalysisError("%s: a path stores the image without the "
+                                "background subtraction and no guard on the "
+                                "background explains it: %s" %
+                                (rule, g.describe(bypass)[-4:]))
+
+
 def r9_background(ctx, prog):
     """the background is subtracted exactly once before segmentation"""
     from ..core import as_update
@@ -643,6 +745,8 @@ def r9_background(ctx, prog):
            "subtraction (%d subtraction statement(s))" %
            ("after" if subtracted else "WITHOUT", len(subs)), True, {},
            subs[0] if subs else lg.node)
+    if subtracted:
+        bkg_guards(ctx, "C02-R9", lg, subs, stores)
     dr = prog.func("source_finder.SourceFinder.find_sources_in_image")
     calls = [c for c in walk_no_nested(dr.node) if isinstance(c, ast.Call)
              and norm(c.func) == "find_islands"]
